@@ -131,10 +131,20 @@ func CheckC14(run *ev.Run) {
 	run.Trusted = append(run.Trusted, "vx extract (DiffTables from live maps)", "correspondence harness difflab")
 	run.Assume = append(run.Assume, "location equality ignores the type decoration of nodes (they describe the element, not the place)",
 		"samples the model marks order-sensitive (visited-key collisions) are compared as multisets only when some sampled order reproduces the real report")
-	for i := 0; i < n; i++ {
-		g := &G{R: r.Fork(), O: genOptsFor(r)}
-		a := g.Spec()
-		b, elog := g.Mutate(a, 1+g.R.Intn(3))
+	fixed := CorpusC14()
+	for i := -len(fixed); i < n; i++ {
+		var a, b *Spec
+		var elog EditLog
+		if i < 0 {
+			// the fixed corpus runs first (its own rng: nothing random in it)
+			pc := fixed[i+len(fixed)]
+			a, b, elog = pc.A, pc.B, EditLog{"corpus:" + pc.Name}
+			st["corpus-pairs"]++
+		} else {
+			g := &G{R: r.Fork(), O: genOptsFor(r)}
+			a = g.Spec()
+			b, elog = g.Mutate(a, 1+g.R.Intn(3))
+		}
 		s := &Sample{Kind: "pair", A: a, B: b, Log: elog}
 		s.render()
 		mAB, rAB, vAB := lab.Compare(a, b, s.JA, s.JB)
@@ -228,10 +238,12 @@ func CheckC14(run *ev.Run) {
 			byLoc[loc] = []string{x + " / " + y}
 		}
 		valid := -1
+		fresh := false
 		for loc, ks := range byLoc {
 			k := "asym:" + ks[0]
 			st[k]++
 			if !run.IsKnown(k) {
+				fresh = true
 				if valid < 0 {
 					valid = 0
 					if lab.validBoth(s) {
@@ -245,6 +257,13 @@ func CheckC14(run *ev.Run) {
 			}
 			run.Deviation(k, fmt.Sprintf("diff(A,B) and diff(B,A) are not mirror images at %s: left over after mirroring %v", loc, ks),
 				s.Replay(map[string]interface{}{"a_to_b": rAB.Raw, "b_to_a": rBA.Raw, "location": loc}))
+		}
+		if corrBroken != "" && !fresh {
+			// every asymmetry of this pair is a listed finding, but the model (which reproduces the listed ones) and the
+			// analyser disagree on it: the tie is broken
+			st["corr-broken-on-known-asymmetry"]++
+			run.Broken("corr:C14", "Lean model and diff.Compare disagree: "+corrBroken,
+				s.Replay(map[string]interface{}{"model_ab": mAB.Raw, "real_ab": rAB.Raw, "model_ba": mBA.Raw, "real_ba": rBA.Raw}))
 		}
 	}
 	run.Extra["distribution"] = st
